@@ -34,6 +34,10 @@ structure BackendCfg where
   argonParallel : Bool := true
   /-- PBKW (PBKDF2): zero iterations rejected with an error (false: treated as one iteration) -/
   pbkwRejectsZeroIter : Bool := false
+  /-- P-384 public-key decoder also accepts the SEC1 "compact" form (tag 05, x only; RustCrypto) -/
+  pkCompact : Bool := false
+  /-- P-384 public-key decoder also accepts the X9.62 "hybrid" form (tag 06/07; aws-lc) -/
+  pkHybrid : Bool := false
   deriving Repr, DecidableEq
 
 /-- what the specification prescribes (and what siblings must share) -/
@@ -48,15 +52,14 @@ instance (c : BackendCfg) (n : Nat) : Decidable (c.ConformsLocal n) := by
 
 /-- the code as it is today -/
 def cfgOf : Backend → BackendCfg
-  | .v1 => { nonceDraw := Extracted.nonceDrawLocal .v1, kemCtPadded := false,
-             pbkwRejectsZeroIter := false }
+  | .v1 => { nonceDraw := Extracted.nonceDrawLocal .v1, pbkwRejectsZeroIter := false }
   | .v2 => { nonceDraw := Extracted.nonceDrawLocal .v2, sealShortErr := .crypto, pkRejectsWeak := false }
-  | .v3 => { nonceDraw := Extracted.nonceDrawLocal .v3 }
+  | .v3 => { nonceDraw := Extracted.nonceDrawLocal .v3, pkCompact := true }
   | .v3lc => { nonceDraw := Extracted.nonceDrawLocal .v3lc, sealShortPanics := true,
-               pkRejectsInfinity := false, pbkwRejectsZeroIter := true }
+               pbkwRejectsZeroIter := true, pkHybrid := true }
   | .v4 => { nonceDraw := Extracted.nonceDrawLocal .v4, sealShortPanics := true, pkRejectsWeak := false }
-  | .v4s => { nonceDraw := Extracted.nonceDrawLocal .v4s, pkOnCurve := false, pkRejectsWeak := false,
-              skChecksPubHalf := false, argonMemMod1024 := false, argonParallel := false }
+  | .v4s => { nonceDraw := Extracted.nonceDrawLocal .v4s, pkRejectsWeak := false,
+              argonMemMod1024 := false, argonParallel := false }
 
 def BackendCfg.short (c : BackendCfg) : Res Bytes :=
   if c.sealShortPanics then .panic "local.rs: split_at_mut(32) on a payload shorter than the nonce"
